@@ -263,6 +263,8 @@ def r12_s(ctx):
     from . import c02
     for fn in (c02.r02_2, c02.r02_4, c02.r02_5, c02.r02_7, c02.r02_10):
         ctx.include(fn, 'R12.S')
+    from . import c13
+    ctx.include(c13.r13_6, 'R12.S')  # the unchecked iterators agree with the checked ones: escape carry across blocks
 
 
 RULES = [("R12.1", r12_1), ("R12.2", r12_2), ("R12.3", r12_3), ("R12.4", r12_4), ("R12.5", r12_5), ("R12.6", r12_6), ("R12.S", r12_s)]
